@@ -863,6 +863,27 @@ func checkForbiddenPositions(p *Program, r *Report, rule string) {
 			k, okk := scConstValue(e.Args[1])
 			return okk && (k == dq || k == sq)
 		}, 0)
+		if !ok {
+			// path-sensitive second look: every feasible path that reaches the call has tested delim == " or delim == '
+			pe := newPathExplorer(p, fn)
+			okPaths, n := true, 0
+			for _, pth := range pe.Paths() {
+				if !pth.Passes(attrCall) {
+					continue
+				}
+				n++
+				if !pth.HasMatching(func(name string, val bool) bool {
+					if !val || !strings.HasPrefix(name, "(== ") || !strings.Contains(name, ".delim ") {
+						return false
+					}
+					base := strings.TrimSuffix(strings.Split(name, "@")[0], ")")
+					return strings.HasSuffix(base, fmt.Sprintf(".delim %d", dq)) || strings.HasSuffix(base, fmt.Sprintf(".delim %d", sq))
+				}) {
+					okPaths = false
+				}
+			}
+			ok = okPaths && n > 0 && !pe.Trunc
+		}
 		r.Check(ok, rule, cn+"#unquoted", p.Pos(attrCall.Pos()), "attribute-value chains are built only for single- or double-quoted values; anything else is an error", "an action in an unquoted attribute value can obtain a sanitizer chain")
 	}
 	// escapeAction turns the error into an error context and edits only on success
